@@ -184,7 +184,7 @@ class NumPolicy:
 
 def spell_number(seg, policy):
     spec = seg.spec or ''
-    if spec in ('', 'd') or (spec.isdigit()):
+    if spec in ('', 'd') or (spec.isdigit()) or (spec.endswith('d') and re.fullmatch(r'[ +\-]?0?\d*d', spec)):
         # printed without a float presentation: an integer count (len(), stoichiometric index, element count)
         return '7' * (seg.width or 1)
     if spec.startswith('%'):
